@@ -488,3 +488,254 @@ FN('write_chunk', props=['C03', 'C18', 'C19', 'C01'], ret='again',
    ],
    before=[('let success = w.try_write(', 'proof { lemma_chunk_len_mono(to_write as nat, spec_max_fit((w.cap() - w.out().len()) as nat)); }')],
    )
+
+# =============================================================================
+# BodyReader (C06 framing decision, C07 chunked, C08 length / close delimited, C12)
+# =============================================================================
+RAW('''
+use crate::chunk::{Dechunker, is_subseq, one_segment, dechunker_wf, lemma_subseq_extend_both, lemma_subseq_extend_b};
+use crate::http::{HeaderName, HeaderValue, Method};
+use crate::error::Error;
+
+/// how a response body is delimited (C06)
+pub enum Framing { NoBody, Length(u64), Chunked, Close }
+/// N9: `value.split(',').map(|v| v.trim()).any(|v| compare_lowercase_ascii(v, "chunked"))`
+/// - does a Transfer-Encoding field value declare the chunked coding (uninterpreted; bounded stand-in)
+pub uninterp spec fn te_declares_chunked(value: Seq<u8>) -> bool;
+#[verifier::external_body]
+pub fn te_declares_chunked_exec(value: &str) -> (r: bool)
+    ensures r == te_declares_chunked(str_bytes(value))
+{ unimplemented!() }
+
+/// C06, written from the statement of the property (RFC 9112 section 6.3): None = error
+pub open spec fn framing(m: Method, status: u16, http10: bool, cl: Option<Seq<u8>>, te: Option<Seq<u8>>) -> Option<Framing> {
+    let te_chunked = (te matches Some(v) && te_declares_chunked(v)) && !http10;
+    if cl matches Some(v) && parse_dec_u64(v) is None { None }
+    else if m == Method::HEAD || (200 <= status <= 299 && m == Method::CONNECT) || (100 <= status <= 199) || status == 204 || status == 304 { Some(Framing::NoBody) }
+    else if 300 <= status <= 399 && cl is None && !te_chunked { Some(Framing::NoBody) }
+    else if te_chunked { Some(Framing::Chunked) }
+    else if cl is Some { Some(Framing::Length(parse_dec_u64(cl->Some_0)->Some_0)) }
+    else { Some(Framing::Close) }
+}
+pub open spec fn reader_framing(r: BodyReader) -> Framing {
+    match r { BodyReader::NoBody => Framing::NoBody, BodyReader::LengthDelimited(n) => Framing::Length(n), BodyReader::Chunked(_) => Framing::Chunked, BodyReader::CloseDelimited => Framing::Close }
+}
+pub open spec fn opt_bytes(o: Option<&str>) -> Option<Seq<u8>> { match o { Some(s) => Some(str_bytes(s)), None => None } }
+/// the lookup closure behaves as a (deterministic) function of the header name
+pub open spec fn lookup_ok<'a, F: Fn(&str) -> Option<&'a str>>(f: &F) -> bool {
+    &&& forall|s: &str| #[trigger] f.requires((s,))
+    &&& forall|s: &str, o1: Option<&'a str>, o2: Option<&'a str>| f.ensures((s,), o1) && f.ensures((s,), o2) ==> o1 == o2
+}
+pub open spec fn reader_wf(r: BodyReader) -> bool { r is Chunked ==> dechunker_wf(r->Chunked_0) }
+''')
+
+ITEM('enum BodyReader', derive_add=['Structural'])
+ITEM('enum BodyMode', derive_add=['Structural'])
+
+IMPL('impl BodyReader')
+FN('body_mode', props=['C06', 'C08'], ret='r',
+   ensures=[('C06.body_mode_reports_framing', '''match *self { BodyReader::NoBody => r == BodyMode::NoBody, BodyReader::LengthDelimited(v) => r == BodyMode::LengthDelimited(v),
+            BodyReader::Chunked(_) => r == BodyMode::Chunked, BodyReader::CloseDelimited => r == BodyMode::CloseDelimited }''')])
+
+LOOKUP_REQ = [('aux.lookup_is_function', 'lookup_ok(header_lookup)')]
+FN('for_response', props=['C06', 'C08', 'C12'], ret='r',
+   requires=LOOKUP_REQ,
+   ensures=[
+       ('C06.mode_table', '''forall|cl: Option<&'a str>, te: Option<&'a str>|
+            #[trigger] header_lookup.ensures(("content-length",), cl) && #[trigger] header_lookup.ensures(("transfer-encoding",), te) ==>
+            match framing(*method, status_code, http10, opt_bytes(cl), opt_bytes(te)) {
+                Some(f) => r is Ok && reader_framing(r->Ok_0) == f && (r->Ok_0 is Chunked ==> r->Ok_0->Chunked_0 == Dechunker::Size),
+                None => r is Err,
+            }'''),
+   ],
+   rewrites=[('N6', "header_lookup: &'a dyn Fn(&str) -> Option<&'a str>", "header_lookup: &'a impl Fn(&str) -> Option<&'a str>")],
+   )
+FN('header_defined', props=['C06', 'C08', 'C12'], ret='r',
+   requires=LOOKUP_REQ,
+   ensures=[
+       ('aux.header_defined.table', '''forall|cl: Option<&'a str>, te: Option<&'a str>|
+            #[trigger] header_lookup.ensures(("content-length",), cl) && #[trigger] header_lookup.ensures(("transfer-encoding",), te) ==> ({
+            let te_chunked = (te matches Some(v) && te_declares_chunked(str_bytes(v))) && !http10;
+            if cl matches Some(v) && parse_dec_u64(str_bytes(v)) is None { r is Err }
+            else if te_chunked { r == Ok::<Self, Error>(BodyReader::Chunked(Dechunker::Size)) }
+            else if cl is Some { r == Ok::<Self, Error>(BodyReader::LengthDelimited(parse_dec_u64(str_bytes(cl->Some_0))->Some_0)) }
+            else { r == Ok::<Self, Error>(BodyReader::CloseDelimited) } })'''),
+   ],
+   head='broadcast use axiom_parse_u64;',
+   rewrites=[
+       ('N6', "header_lookup: &'a dyn Fn(&str) -> Option<&'a str>", "header_lookup: &'a impl Fn(&str) -> Option<&'a str>"),
+       ('N5', '.map_err(|_| Error::BadContentLengthHeader)?', '.map_err(|_e: core::num::ParseIntError| -> (e2: Error) ensures e2 == Error::BadContentLengthHeader { Error::BadContentLengthHeader })?'),
+       ('N9', '''value
+                .split(',')
+                .map(|v| v.trim())
+                .any(|v| compare_lowercase_ascii(v, "chunked"))''', 'te_declares_chunked_exec(value)'),
+   ],
+   )
+
+FN('read', props=['C07', 'C08', 'C12', 'C01'], ret='r',
+   requires=[('aux.BodyReader.read.wf', 'reader_wf(*old(self))')],
+   ensures=[
+       ('aux.BodyReader.read.frame', 'final(dst).len() == old(dst).len() && (r is Ok ==> reader_wf(*final(self)))'),
+       ('C12.counts', 'r is Ok ==> r->Ok_0.0 <= src.len() && r->Ok_0.1 <= old(dst).len()'),
+       ('C12.copy_in_order', 'r is Ok ==> is_subseq(final(dst)@.subrange(0, r->Ok_0.1 as int), src@.subrange(0, r->Ok_0.0 as int))'),
+       ('C08.length_delimited', '*old(self) is LengthDelimited ==> Self::post_read_limit(*old(self), *final(self), src@, old(dst)@, final(dst)@, r)'),
+       ('C08.close_delimited', '*old(self) is CloseDelimited ==> Self::post_read_unlimit(*old(self), *final(self), src@, old(dst)@, final(dst)@, r)'),
+       ('C07.chunked', '*old(self) is Chunked ==> Self::post_read_chunked(*old(self), *final(self), src@, final(dst)@, stop_on_chunk_boundary, r)'),
+       ('aux.BodyReader.read.nobody', '*old(self) is NoBody ==> r == Ok::<(usize, usize), Error>((0usize, 0usize)) && *final(self) == *old(self)'),
+   ],
+   head='proof { axiom_slice_len(src); }',
+   before=[('log_data(&src[..part.0]);', '''proof {
+            if !(*old(self) is Chunked) {
+                lemma_subseq_refl(src@.subrange(0, part.0 as int));
+                assert(dst@.subrange(0, part.1 as int) =~= src@.subrange(0, part.0 as int));
+            }
+        }''')],
+   )
+
+RAW('''
+    /// C08: one read of a Content-Length body moves min(input, output space, remaining) bytes unchanged
+    pub open spec fn post_read_limit(pre: Self, post: Self, src: Seq<u8>, dst0: Seq<u8>, dst1: Seq<u8>, r: Result<(usize, usize), Error>) -> bool {
+        let left = pre->LengthDelimited_0;
+        let n = min3(src.len() as int, dst0.len() as int, left as int);
+        &&& r == Ok::<(usize, usize), Error>((n as usize, n as usize))
+        &&& post == BodyReader::LengthDelimited((left - n) as u64)
+        &&& dst1.subrange(0, n) =~= src.subrange(0, n)
+        &&& dst1.subrange(n, dst1.len() as int) =~= dst0.subrange(n, dst0.len() as int)
+    }
+    /// C08: a close-delimited body passes every offered byte through unchanged
+    pub open spec fn post_read_unlimit(pre: Self, post: Self, src: Seq<u8>, dst0: Seq<u8>, dst1: Seq<u8>, r: Result<(usize, usize), Error>) -> bool {
+        let n = min2(src.len() as int, dst0.len() as int);
+        &&& r == Ok::<(usize, usize), Error>((n as usize, n as usize))
+        &&& post == pre
+        &&& dst1.subrange(0, n) =~= src.subrange(0, n)
+        &&& dst1.subrange(n, dst1.len() as int) =~= dst0.subrange(n, dst0.len() as int)
+    }
+    /// C07 (what is proved without the coding witness): a chunked read stays chunked, an ended body consumes
+    /// nothing, and with boundary stopping the data of one read is one contiguous piece of the input
+    pub open spec fn post_read_chunked(pre: Self, post: Self, src: Seq<u8>, dst1: Seq<u8>, stop: bool, r: Result<(usize, usize), Error>) -> bool {
+        r is Ok ==> {
+            &&& post is Chunked
+            &&& (pre->Chunked_0 is Ended ==> r->Ok_0.0 == 0 && r->Ok_0.1 == 0 && post->Chunked_0 is Ended)
+            &&& (stop ==> one_segment(src, dst1, r->Ok_0.0 as int, r->Ok_0.1 as int, pre->Chunked_0, post->Chunked_0))
+        }
+    }
+''')
+
+FN('read_limit', props=['C08', 'C12', 'C01'], ret='r',
+   requires=[('aux.read_limit.mode', '*old(self) is LengthDelimited')],
+   ensures=[
+       ('aux.read_limit.frame', 'final(dst).len() == old(dst).len()'),
+       ('C08.copy_min3', 'Self::post_read_limit(*old(self), *final(self), src@, old(dst)@, final(dst)@, r)'),
+   ],
+   head='proof { axiom_slice_len(src); axiom_slice_len(dst); }')
+
+FN('read_unlimit', props=['C08', 'C12', 'C01'], ret='r',
+   ensures=[
+       ('aux.read_unlimit.frame', 'final(dst).len() == old(dst).len()'),
+       ('C08.passthrough', 'Self::post_read_unlimit(*old(self), *final(self), src@, old(dst)@, final(dst)@, r)'),
+   ],
+   head='proof { axiom_slice_len(src); axiom_slice_len(dst); }')
+
+FN('read_chunked', props=['C07', 'C12', 'C01'], ret='r',
+   requires=[('aux.read_chunked.mode', '*old(self) is Chunked && dechunker_wf(old(self)->Chunked_0)')],
+   ensures=[
+       ('aux.read_chunked.frame', 'final(dst).len() == old(dst).len() && (r is Ok ==> reader_wf(*final(self)))'),
+       ('C12.counts', 'r is Ok ==> r->Ok_0.0 <= src.len() && r->Ok_0.1 <= old(dst).len()'),
+       ('C12.copy_in_order', 'r is Ok ==> is_subseq(final(dst)@.subrange(0, r->Ok_0.1 as int), src@.subrange(0, r->Ok_0.0 as int))'),
+       ('C07.boundary_stop_and_end', 'Self::post_read_chunked(*old(self), *final(self), src@, final(dst)@, stop_on_chunk_boundary, r)'),
+   ],
+   head='proof { axiom_slice_len(src); axiom_slice_len(dst); }',
+   loops={1: {'kw': 'loop',
+              'before': '''
+        let ghost s0 = *dechunker;
+        let ghost mut p_in: usize = 0;
+        let ghost mut p_out: usize = 0;
+        let ghost mut p_state: Dechunker = *dechunker;
+        let ghost mut p_dst: Seq<u8> = dst@;
+        let ghost mut rounds: nat = 0;
+''',
+              'invariant': [
+                  ('aux.read_chunked.loop.bounds', 'input_used <= src.len() && output_used <= dst.len() && dst.len() == old(dst).len() && src.len() <= usize::MAX && dst.len() <= usize::MAX'),
+                  ('aux.read_chunked.loop.state', 'dechunker_wf(*dechunker)'),
+                  ('aux.read_chunked.loop.subseq', 'is_subseq(dst@.subrange(0, output_used as int), src@.subrange(0, input_used as int))'),
+                  ('aux.read_chunked.loop.ended', 's0 is Ended ==> *dechunker is Ended && input_used == 0 && output_used == 0'),
+                  ('aux.read_chunked.loop.segment', 'stop_on_chunk_boundary ==> one_segment(src@, dst@, input_used as int, output_used as int, s0, *dechunker)'),
+              ],
+              'invariant_except_break': [
+                  ('aux.read_chunked.loop.open', 'stop_on_chunk_boundary && output_used > 0 ==> *dechunker is Chunk || *dechunker is CrLf'),
+                  ('aux.read_chunked.loop.first', 'rounds == 0 ==> input_used == 0 && output_used == 0 && *dechunker == s0'),
+                  ('aux.read_chunked.loop.progress', 'rounds > 0 ==> input_used > 0'),
+                  ('aux.read_chunked.loop.open_chunk_has_data', 'stop_on_chunk_boundary && s0 is Chunk && rounds > 0 ==> output_used > 0'),
+              ],
+              'decreases': 'src.len() - input_used',
+              'body_head': '''
+            proof { p_in = input_used; p_out = output_used; p_state = *dechunker; p_dst = dst@; }
+''',
+              }},
+   after=[('output_used += o;', '''
+            proof {
+                rounds = rounds + 1;
+                let a0 = p_dst.subrange(0, p_out as int);
+                let b0 = src@.subrange(0, p_in as int);
+                // this round's piece, in the coordinates of the whole call
+                let w_src = src@.subrange(p_in as int, src.len() as int);
+                let w_dst = dst@.subrange(p_out as int, dst.len() as int);
+                assert(dst@.subrange(0, p_out as int) =~= a0);
+                assert(w_dst.subrange(0, o as int) =~= dst@.subrange(p_out as int, p_out + o));
+                assert(w_src.subrange(0, i as int) =~= src@.subrange(p_in as int, p_in + i));
+                lemma_subseq_concat(a0, b0, w_dst.subrange(0, o as int), w_src.subrange(0, i as int));
+                assert(dst@.subrange(0, output_used as int) =~= a0 + w_dst.subrange(0, o as int));
+                assert(src@.subrange(0, input_used as int) =~= b0 + w_src.subrange(0, i as int));
+                if stop_on_chunk_boundary {
+                    let a = crate::chunk::seg_start(i as int, o as int, *dechunker);
+                    assert(w_src.subrange(a, a + o) =~= src@.subrange(p_in + a, p_in + a + o));
+                    let at = crate::chunk::seg_start(input_used as int, output_used as int, *dechunker);
+                    let ap = crate::chunk::seg_start(p_in as int, p_out as int, p_state);
+                    if p_out > 0 && o > 0 {
+                        // an open chunk continues: the new piece starts at the window's first byte
+                        assert(a == 0 && ap + p_out == p_in);
+                        assert(src@.subrange(ap, ap + p_out) + src@.subrange(p_in as int, p_in + o) =~= src@.subrange(at, at + output_used));
+                    }
+                    assert(src@.subrange(at, at + output_used) =~= dst@.subrange(0, output_used as int));
+                }
+            }
+''')],
+   )
+
+FN('is_ended', props=['C07', 'C08', 'C09'], ret='r',
+   ensures=[('C08.complete_iff', '''r == match *self { BodyReader::NoBody => true, BodyReader::LengthDelimited(v) => v == 0,
+            BodyReader::Chunked(d) => d is Ended, BodyReader::CloseDelimited => false }''')])
+FN('is_on_chunk_boundary', props=['C07'], ret='r',
+   ensures=[('aux.BodyReader.is_on_chunk_boundary', 'r == (*self is Chunked && self->Chunked_0 is Size)')])
+END()
+
+PROOF('lemma_subseq_concat', ['C12', 'C07'], '''
+pub proof fn lemma_subseq_refl(a: Seq<u8>)
+    ensures is_subseq(a, a)
+    decreases a.len()
+{
+    if a.len() > 0 { lemma_subseq_refl(a.drop_last()); }
+}
+pub proof fn lemma_subseq_concat(a: Seq<u8>, b: Seq<u8>, x: Seq<u8>, y: Seq<u8>)
+    requires is_subseq(a, b), is_subseq(x, y)
+    ensures is_subseq(a + x, b + y)
+    decreases y.len()
+{
+    if x.len() == 0 {
+        assert(a + x =~= a);
+        lemma_subseq_extend_b(a, b, y);
+    } else if y.len() == 0 {
+    } else {
+        assert((b + y).drop_last() =~= b + y.drop_last());
+        if x.last() == y.last() && is_subseq(x.drop_last(), y.drop_last()) {
+            lemma_subseq_concat(a, b, x.drop_last(), y.drop_last());
+            assert((a + x).drop_last() =~= a + x.drop_last());
+            assert((a + x).last() == (b + y).last());
+        } else {
+            lemma_subseq_concat(a, b, x, y.drop_last());
+            let ax = a + x; let by = b + y;
+            if ax.last() == by.last() && is_subseq(ax.drop_last(), by.drop_last()) {} else {}
+        }
+    }
+}
+''')
